@@ -9,4 +9,5 @@ if ! cmp -s _CoqProject.new _CoqProject 2>/dev/null || [ ! -f Makefile.coq ]; th
 else
   rm -f _CoqProject.new
 fi
+exec 9>.build.lock; flock 9
 timeout ${VERIF_BUILD_TIMEOUT:-3000} make -f Makefile.coq -j${VERIF_JOBS:-16} "$@"
